@@ -285,4 +285,26 @@ theorem metasOf_spec (t : List Cell) :
   have := metasOf_foldl_inv t [] [] ⟨by simp, by simp, by simp⟩
   simpa [metasOf] using this
 
+/-! ### the last element of a stable sort is a maximum -/
+
+theorem lastBy?_spec {α : Type} {cmp : α → α → Ordering} [TransCmp cmp] {l : List α} (hl : l ≠ []) :
+    ∃ c, lastBy? (leOf cmp) l = some c ∧ c ∈ l ∧ ∀ x ∈ l, leOf cmp x c = true := by
+  unfold lastBy?
+  have hperm : (l.mergeSort (leOf cmp)).Perm l := List.mergeSort_perm _ _
+  have hs := sorted_mergeSort (cmp := cmp) l
+  generalize l.mergeSort (leOf cmp) = s at hperm hs
+  have hne : s ≠ [] := by
+    intro h; subst h
+    exact hl (List.Perm.nil_eq hperm).symm
+  refine ⟨s.getLast hne, List.getLast?_eq_some_getLast hne, hperm.mem_iff.mp (List.getLast_mem hne), ?_⟩
+  intro x hx
+  have hx' : x ∈ s := hperm.mem_iff.mpr hx
+  rw [← List.dropLast_concat_getLast hne] at hs hx'
+  rcases List.mem_append.mp hx' with h | h
+  · exact (List.pairwise_append.mp hs).2.2 x h _ (by simp)
+  · simp at h; subst h
+    have := leOf_total (cmp := cmp) (s.getLast hne) (s.getLast hne)
+    simpa using this
+
+
 end Bermuda
